@@ -64,13 +64,18 @@ impl Project {
         Some(p)
     }
     pub fn disk(&self) -> mos_simrt::disk::SimDisk {
+        self.disk_at(std::path::Path::new(WS))
+    }
+
+    /// the project in a directory of any name (also one that is not valid UTF-8)
+    pub fn disk_at(&self, root: &std::path::Path) -> mos_simrt::disk::SimDisk {
         let mut d = mos_simrt::disk::SimDisk::new();
-        d.add_dir(WS);
+        d.add_dir(root);
         if !self.toml.is_empty() {
-            d.add_file(format!("{}/mos.toml", WS), self.toml.as_bytes().to_vec());
+            d.add_file(root.join("mos.toml"), self.toml.as_bytes().to_vec());
         }
         for (k, v) in &self.files {
-            d.add_file(format!("{}/{}", WS, k), v.clone());
+            d.add_file(root.join(k), v.clone());
         }
         d
     }
